@@ -187,7 +187,7 @@ func genDirCase(t *rapid.T) *DirCase {
 
 // checkDir writes the directory, runs the tool, and checks every entry.
 func checkDir(c *DirCase) (msg string, badBeforeGood bool) {
-	top := newWorkDir()
+	top := newWorkDirFor(c.Unpriv && strings.HasPrefix(c.Mode, "cli-"))
 	defer os.RemoveAll(top)
 	dir, err := workSub(top, c.Sub)
 	if err != nil {
